@@ -1216,3 +1216,20 @@ def switch_arms(f, cfg, t, names=None):
                 mine = mine - cfg.reachable_incl(t2)
         out[nm] = mine
     return out
+
+
+def infeasible_continue_blocks(f):
+    """`Err(e)?` lowers to branch(Result::Err{..}) followed by a switch whose Continue arm can never be taken.
+    Returns those Continue-arm target blocks (safe to prune: the operand is a literal Err aggregate)."""
+    out = set()
+    for i, c, args, dest, tgt, line in calls(f):
+        if not callee_matches(c, r"Try(<[^>]*>)?>?::branch$") or not args or args[0][0] == "k" or tgt is None:
+            continue
+        r = root_of(f, args[0][1][0])
+        if isinstance(r, tuple) and r[0] == "rvalue" and r[1][0] == "agg" and r[1][1].endswith("result::Result") and r[1][2] == "Err":
+            t = f["bbs"][tgt]["t"]
+            if t[0] == "switch":
+                for v, tg in t[2]:
+                    if v == 0:
+                        out.add(tg)
+    return out
